@@ -110,3 +110,45 @@ def parse_bool_list(out):
         else:
             res.append(it)
     return res
+
+
+# ---------------------------------------------------------------------------- JWE
+
+ENC_KEYLEN = {"A128GCM": 16, "A192GCM": 24, "A256GCM": 32, "A128CBC-HS256": 32, "A192CBC-HS384": 48, "A256CBC-HS512": 64}
+SYM_WRAPS = ["dir", "A128KW", "A192KW", "A256KW", "A128GCMKW", "A192GCMKW", "A256GCMKW"]
+PBES2 = ["PBES2-HS256+A128KW", "PBES2-HS384+A192KW", "PBES2-HS512+A256KW"]
+EC_WRAPS = ["ECDH-ES", "ECDH-ES+A128KW", "ECDH-ES+A192KW", "ECDH-ES+A256KW"]
+RSA_WRAPS = ["RSA1_5", "RSA-OAEP", "RSA-OAEP-224", "RSA-OAEP-256", "RSA-OAEP-384", "RSA-OAEP-512"]
+KW_LEN = {"A128KW": 16, "A192KW": 24, "A256KW": 32, "A128GCMKW": 16, "A192GCMKW": 24, "A256GCMKW": 32}
+
+
+def wrap_key(rnd, keys, wrap, enc):
+    """a key usable with the key-management algorithm"""
+    if wrap == "dir":
+        return oct_key(rnd, ENC_KEYLEN[enc])
+    if wrap in KW_LEN:
+        return oct_key(rnd, KW_LEN[wrap])
+    if wrap in PBES2:
+        return oct_key(rnd, 20)
+    if wrap in EC_WRAPS:
+        return keys.get(rnd.choice(["P-256", "P-384", "P-521"]))
+    if wrap in RSA_WRAPS:
+        return keys.get("RSA2048")
+    return None
+
+
+def jwe_template(wrap, enc, zip_, aad, where="protected", p2c=1000):
+    hdr = {"alg": wrap, "enc": enc}
+    if wrap in PBES2:
+        hdr["p2c"] = p2c
+    if zip_:
+        hdr["zip"] = "DEF"
+    t = {}
+    if where == "protected":
+        t["protected"] = hdr
+    elif where == "split":
+        t["protected"] = {k: v for k, v in hdr.items() if k in ("enc", "zip")}
+        t["unprotected"] = {k: v for k, v in hdr.items() if k not in ("enc", "zip")}
+    if aad is not None:
+        t["aad"] = aad
+    return t
